@@ -321,6 +321,33 @@ func avoidDelimPrefixHighByte(val string) (string, int) {
 	}
 }
 
+// NameGuesses lists fence texts that a builder could derive from a variable name.
+func NameGuesses(name string) []string {
+	u, l := strings.ToUpper(name), strings.ToLower(name)
+	return []string{"EOF_" + u, "EOF" + u, name, "EOF_" + name, "EOF" + name, "EOF_" + l, "EOF" + l, u, u + "_EOF", "END_" + u, "EOF_" + u + "_EOF", "__" + u + "__"}
+}
+
+func withNameGuess(rt *rapid.T, value, name string) string {
+	g := NameGuesses(name)
+	guess := g[hx.Uniform(rt, len(g), "guess")]
+	value = strings.TrimRight(value, "\n")
+	if hx.Excluded(ClassDelimPrefixHighByte) && len(value) > 0 && value[len(value)-1] >= 0x80 {
+		value += "~" // keep "prefix of a delimiter + high byte" out of reach when the guess is glued below
+	}
+	var tail string
+	switch hx.Uniform(rt, 4, "guesstail") {
+	case 0:
+		tail = "touch canary\n"
+	case 1:
+		tail = ")\ntouch canary\n" + sentinelName + "=pwned\n: $(cat <<'" + guess + "'\n"
+	case 2:
+		tail = ")\nexport C18_INJECTED=1\n"
+	default:
+		tail = "" // the bare line
+	}
+	return value + "\n" + guess + "\n" + tail
+}
+
 // Gen draws a case: 0-6 variables spread over Set / SetAll calls, about one name in seven
 // deliberately not an identifier.
 func Gen(rt *rapid.T) Case {
@@ -332,6 +359,7 @@ func Gen(rt *rapid.T) Case {
 	if nvars > 6 {
 		nvars -= 6
 	}
+	prevName := ""
 	for nvars > 0 {
 		op := SetOp{}
 		k := 1
@@ -352,7 +380,21 @@ func Gen(rt *rapid.T) Case {
 			} else {
 				name = genValidName(rt)
 			}
-			op.Vars = append(op.Vars, Var{Name: B(name), Value: B(genValue(rt))})
+			value := genValue(rt)
+			if unlikely(rt, 12, "nameguess") {
+				// a delimiter guessed from a variable name (own or the previously drawn one) on a
+				// line of its own, followed by a payload
+				from := name
+				if prevName != "" && unlikely(rt, 30, "guessother") {
+					from = prevName
+				}
+				if !shellIdent(from) { // invalid names may hold NUL or newlines; values never contain NUL
+					from = "A"
+				}
+				value = withNameGuess(rt, value, from)
+			}
+			prevName = name
+			op.Vars = append(op.Vars, Var{Name: B(name), Value: B(value)})
 		}
 		c.Sets = append(c.Sets, op)
 		if k == 0 {
@@ -424,43 +466,69 @@ func Exec(c Case) hx.Verdict {
 	return hx.Guard(func() hx.Verdict { return exec1(c) })
 }
 
-func exec1(c Case) (v hx.Verdict) {
-	v = hx.Pass()
-	lab := map[string]bool{}
-	tmpDir, shellPid := "", ""
-	defer func() {
-		ls := make([]string, 0, len(lab))
-		for l := range lab {
-			ls = append(ls, l)
-		}
-		sort.Strings(ls)
-		v.Labels = append(v.Labels, ls...)
-	}()
-	fail := func(step int, clause, format string, a ...interface{}) hx.Verdict {
-		f := hx.Fail(clause, format, a...)
-		f.Step = step
-		// keep the message reproducible (rapid shrinks only then)
-		if tmpDir != "" {
-			f.Detail = strings.ReplaceAll(f.Detail, tmpDir, "<TMP>")
-		}
-		if shellPid != "" {
-			f.Detail = strings.ReplaceAll(f.Detail, shellPid, "<PID>")
-		}
-		return f
-	}
-	if c.Builder != "container" && c.Builder != "ssh" {
-		v = inconclusive("unknown builder")
-		return v
-	}
-	lab["builder-"+c.Builder] = true
+// runner carries one execution: the real Environments, the model of what was set
+// successfully, the labels and the pieces that make failure messages reproducible.
+type runner struct {
+	v        hx.Verdict // the passing verdict being accumulated (NonTrivial, counters)
+	lab      map[string]bool
+	tmpDir   string
+	shellPid string
+	e        commservices.Environments
+	model    map[string]string
+}
 
-	// 1. names: Set / SetAll on the real Environments
-	var e commservices.Environments = envs.NewEnvironments()
-	model := map[string]string{}
-	if len(c.Sets) == 0 {
-		lab["empty-map"] = true
+func newRunner() *runner {
+	return &runner{v: hx.Pass(), lab: map[string]bool{}, e: envs.NewEnvironments(), model: map[string]string{}}
+}
+
+// done attaches the collected labels to the verdict that is returned.
+func (r *runner) done(v hx.Verdict) hx.Verdict {
+	ls := make([]string, 0, len(r.lab))
+	for l := range r.lab {
+		ls = append(ls, l)
 	}
-	for step, op := range c.Sets {
+	sort.Strings(ls)
+	v.Labels = append(v.Labels, ls...)
+	return v
+}
+
+func (r *runner) fail(step int, clause, format string, a ...interface{}) hx.Verdict {
+	f := hx.Fail(clause, format, a...)
+	f.Step = step
+	// keep the message reproducible (rapid shrinks only then)
+	if r.tmpDir != "" {
+		f.Detail = strings.ReplaceAll(f.Detail, r.tmpDir, "<TMP>")
+	}
+	if r.shellPid != "" {
+		f.Detail = strings.ReplaceAll(f.Detail, r.shellPid, "<PID>")
+	}
+	return f
+}
+
+func exec1(c Case) hx.Verdict {
+	r := newRunner()
+	if c.Builder != "container" && c.Builder != "ssh" {
+		return r.done(inconclusive("unknown builder"))
+	}
+	if len(c.Sets) == 0 {
+		r.lab["empty-map"] = true
+	}
+	if v, ok := r.apply(c.Sets, 0); !ok {
+		return r.done(v)
+	}
+	script, v, ok := r.build(c.Builder)
+	if !ok {
+		return r.done(v)
+	}
+	return r.done(r.judge(c.Builder, script))
+}
+
+// apply runs Set / SetAll calls on the real Environments and judges the name clauses.
+// ok=false: the returned verdict ends the case.
+func (r *runner) apply(sets []SetOp, stepBase int) (hx.Verdict, bool) {
+	e, model, lab := r.e, r.model, r.lab
+	for i, op := range sets {
+		step := stepBase + i
 		var err error
 		mustReject, mustAccept := false, len(op.Vars) > 0
 		for _, kv := range op.Vars {
@@ -500,8 +568,7 @@ func exec1(c Case) (v hx.Verdict) {
 			}
 		} else {
 			if len(op.Vars) != 1 {
-				v = inconclusive("Set op without exactly one variable")
-				return v
+				return inconclusive("Set op without exactly one variable"), false
 			}
 			err = e.Set(string(op.Vars[0].Name), string(op.Vars[0].Value))
 			if err == nil {
@@ -509,37 +576,77 @@ func exec1(c Case) (v hx.Verdict) {
 			}
 		}
 		if mustReject && err == nil {
-			return fail(step, "name-rejected", "%s accepted a name that is not a plain identifier: %s", opName(op), qnames(op))
+			return r.fail(step, "name-rejected", "%s accepted a name that is not a plain identifier: %s", opName(op), qnames(op)), false
 		}
 		if mustAccept && err != nil {
-			return fail(step, "documented-name-accepted", "%s rejected names of letters/underscores starting with a letter: %s: %v", opName(op), qnames(op), err)
+			return r.fail(step, "documented-name-accepted", "%s rejected names of letters/underscores starting with a letter: %s: %v", opName(op), qnames(op), err), false
 		}
 		// whatever the call returned, no non-identifier may be configured afterwards
 		all := e.All()
 		for k := range all {
 			if !shellIdent(k) {
-				return fail(step, "name-rejected", "after %s the environment contains the non-identifier name %s", opName(op), q(k))
+				return r.fail(step, "name-rejected", "after %s the environment contains the non-identifier name %s", opName(op), q(k)), false
 			}
 		}
 		if len(all) != len(model) {
-			return fail(step, "name-rejected", "after %s the environment has %d names, %d were set successfully", opName(op), len(all), len(model))
+			return r.fail(step, "name-rejected", "after %s the environment has %d names, %d were set successfully", opName(op), len(all), len(model)), false
 		}
 		for k := range model {
 			if _, ok := all[k]; !ok {
-				return fail(step, "name-rejected", "after %s the successfully set name %s is missing", opName(op), q(k))
+				return r.fail(step, "name-rejected", "after %s the successfully set name %s is missing", opName(op), q(k)), false
 			}
 		}
 	}
+	return r.v, true
+}
+
+// build asks the real builder for the start-up script of the current environment.
+func (r *runner) build(builder string) ([]byte, hx.Verdict, bool) {
+	var (
+		rd  io.Reader
+		err error
+	)
+	if builder == "container" {
+		rd, err = dcmd.InitSequence(r.e)
+	} else {
+		rd, err = sshsb.VerifInitSequence(":", r.e)
+	}
+	if err != nil || rd == nil {
+		return nil, r.fail(0, "script-built", "%s builder returned an error for a valid environment: %v", builder, err), false
+	}
+	script, err := io.ReadAll(rd)
+	if err != nil {
+		return nil, r.fail(0, "script-built", "reading the %s script: %v", builder, err), false
+	}
+	return script, r.v, true
+}
+
+// judge runs the script under the real /bin/sh and compares the outcome with the model.
+func (r *runner) judge(builder string, script []byte) hx.Verdict {
+	model, lab := r.model, r.lab
+	fail := r.fail
+	lab["builder-"+builder] = true
 	names := make([]string, 0, len(model))
 	for k, val := range model {
 		if reserved(k) {
-			v = inconclusive("reserved name configured")
-			return v
+			return inconclusive("reserved name configured")
 		}
 		names = append(names, k)
 		classifyValue(val, lab)
+		for other := range model {
+			for _, g := range NameGuesses(other) {
+				if hasLine(val, g) {
+					if other == k {
+						lab["value-line-own-name-derived-delimiter"] = true
+					} else {
+						lab["value-line-other-name-derived-delimiter"] = true
+					}
+					break
+				}
+			}
+		}
 		if strings.ContainsAny(val, significant) {
-			v.NonTrivial = true
+			r.v.NonTrivial = true
 		}
 	}
 	sort.Strings(names)
@@ -550,46 +657,24 @@ func exec1(c Case) (v hx.Verdict) {
 		lab["vars>=4"] = true
 	}
 
-	// 2. the start-up script
-	var (
-		rd  io.Reader
-		err error
-	)
-	if c.Builder == "container" {
-		rd, err = dcmd.InitSequence(e)
-	} else {
-		rd, err = sshsb.VerifInitSequence(":", e)
-	}
-	if err != nil || rd == nil {
-		return fail(0, "script-built", "%s builder returned an error for a valid environment: %v", c.Builder, err)
-	}
-	script, err := io.ReadAll(rd)
-	if err != nil {
-		return fail(0, "script-built", "reading the %s script: %v", c.Builder, err)
-	}
-
-	// 3. run it under the real /bin/sh, the way both sandboxes do: script on stdin, followed
+	// run it under the real /bin/sh, the way both sandboxes do: script on stdin, followed
 	// by the "user input" (here: the dump trailer)
 	if err := lookupTools(); err != nil {
-		v = inconclusive("tools: %v", err)
-		return v
+		return inconclusive("tools: %v", err)
 	}
 	tmp, err := os.MkdirTemp("", "c18-")
 	if err != nil {
-		v = inconclusive("mkdtemp")
-		return v
+		return inconclusive("mkdtemp")
 	}
 	defer os.RemoveAll(tmp)
-	tmpDir = tmp
+	r.tmpDir = tmp
 	bin, work := filepath.Join(tmp, "bin"), filepath.Join(tmp, "w")
 	if os.Mkdir(bin, 0755) != nil || os.Mkdir(work, 0755) != nil {
-		v = inconclusive("mkdir")
-		return v
+		return inconclusive("mkdir")
 	}
 	for t, p := range tools.path {
 		if os.Symlink(p, filepath.Join(bin, t)) != nil {
-			v = inconclusive("symlink")
-			return v
+			return inconclusive("symlink")
 		}
 	}
 	var in bytes.Buffer
@@ -609,17 +694,15 @@ func exec1(c Case) (v hx.Verdict) {
 	var stdout, stderr bytes.Buffer
 	cmd.Stdout, cmd.Stderr = &stdout, &stderr
 	runErr := cmd.Run()
-	v.Count("shell-runs", 1)
+	r.v.Count("shell-runs", 1)
 	if cmd.Process != nil {
-		shellPid = fmt.Sprint(cmd.Process.Pid)
+		r.shellPid = fmt.Sprint(cmd.Process.Pid)
 	}
 	if ctx.Err() != nil {
-		v = inconclusive("shell watchdog")
-		return v
+		return inconclusive("shell watchdog")
 	}
 	if _, isExit := runErr.(*exec.ExitError); runErr != nil && !isExit {
-		v = inconclusive("could not run /bin/sh")
-		return v
+		return inconclusive("could not run /bin/sh")
 	}
 	final := 0 // shell-phase failures carry no step: the message must not depend on the number of calls (shrinking)
 	// rapid only shrinks failures whose message is reproducible; the script (random
@@ -631,26 +714,26 @@ func exec1(c Case) (v hx.Verdict) {
 		return fmt.Sprintf(" [stderr %s] [stdout %s] [script %s]", q(stderr.String()), q(stdout.String()), q(string(script)))
 	}
 
-	// 3a. every configured variable holds exactly its value (up to trailing newlines)
+	// a. every configured variable holds exactly its value (up to trailing newlines)
 	recs := strings.Split(stdout.String(), "\x00")
 	if len(recs) < 1 || recs[0] != markBegin {
-		return fail(final, "verbatim", "%s sandbox: the shell did not get through the start-up script (%s)%s", c.Builder, exitText(runErr), diag())
+		return fail(final, "verbatim", "%s sandbox: the shell did not get through the start-up script (%s)%s", builder, exitText(runErr), diag())
 	}
 	recs = recs[1:]
 	if len(recs) < len(names)+1 || recs[len(names)] != markMid {
-		return fail(final, "verbatim", "%s sandbox: the shell stopped before all %d variables were dumped (%s)%s", c.Builder, len(names), exitText(runErr), diag())
+		return fail(final, "verbatim", "%s sandbox: the shell stopped before all %d variables were dumped (%s)%s", builder, len(names), exitText(runErr), diag())
 	}
 	for i, k := range names {
 		want := strings.TrimRight(model[k], "\n")
 		if recs[i] != want {
-			return fail(final, "verbatim", "%s sandbox: variable %s is %s in the shell, configured %s%s", c.Builder, k, q(recs[i]), q(model[k]), diag())
+			return fail(final, "verbatim", "%s sandbox: variable %s is %s in the shell, configured %s%s", builder, k, q(recs[i]), q(model[k]), diag())
 		}
 	}
 	recs = recs[len(names)+1:]
-	// 3b. exported, and no other variable differs from the scrubbed baseline
+	// b. exported, and no other variable differs from the scrubbed baseline
 	endAt := -1
-	for i, r := range recs {
-		if r == markEnd {
+	for i, rec := range recs {
+		if rec == markEnd {
 			endAt = i
 		}
 	}
@@ -658,12 +741,12 @@ func exec1(c Case) (v hx.Verdict) {
 		return fail(final, "no-other-variable", "environment dump is incomplete (%s)%s", exitText(runErr), diag())
 	}
 	seen := map[string]string{}
-	for _, r := range recs[:endAt] {
-		i := strings.IndexByte(r, '=')
+	for _, rec := range recs[:endAt] {
+		i := strings.IndexByte(rec, '=')
 		if i < 0 {
-			return fail(final, "no-other-variable", "malformed environment record %s%s", q(r), diag())
+			return fail(final, "no-other-variable", "malformed environment record %s%s", q(rec), diag())
 		}
-		seen[r[:i]] = r[i+1:]
+		seen[rec[:i]] = rec[i+1:]
 	}
 	expect := map[string]string{"PATH": bin, "HOME": work, sentinelName: sentinelValue}
 	for _, k := range names {
@@ -691,15 +774,14 @@ func exec1(c Case) (v hx.Verdict) {
 		}
 		return fail(final, "no-other-variable", "unexpected variable %s=%s in the environment%s", k, q(got), diag())
 	}
-	// 3c. exit status
+	// c. exit status
 	if runErr != nil {
 		return fail(final, "exit-0", "shell exited with %v%s", runErr, diag())
 	}
-	// 3d. no value ran a command: the working directory (= HOME) is still empty
+	// d. no value ran a command: the working directory (= HOME) is still empty
 	ents, err := os.ReadDir(work)
 	if err != nil {
-		v = inconclusive("readdir")
-		return v
+		return inconclusive("readdir")
 	}
 	if len(ents) > 0 {
 		return fail(final, "no-command-ran", "the empty working directory now contains %s%s", q(ents[0].Name()), diag())
@@ -707,7 +789,16 @@ func exec1(c Case) (v hx.Verdict) {
 	if stderr.Len() > 0 {
 		lab["shell-wrote-stderr"] = true
 	}
-	return v
+	return r.v
+}
+
+func hasLine(val, line string) bool {
+	for _, l := range strings.Split(val, "\n") {
+		if l == line {
+			return true
+		}
+	}
+	return false
 }
 
 func exitText(err error) string {
